@@ -12,6 +12,9 @@
 (*   new -> (scheduler) -> backlog | mq -> (master) ->                     *)
 (*      executable  : agent -> (scheduler, raptor_seen) -> local -> out    *)
 (*      function-like: wq -> held -> run -> resq -> mres -> out            *)
+(* The dispatch process of a request with a timeout (parent _dispatch and  *)
+(* child _worker_proc) is stepped operation by operation: see Finish ff.   *)
+(* The MPI worker has its own model, RaptorMPI.                            *)
 (* Ghost variables (runningOn, put, back, target, ec, visits) state the    *)
 (* property independently of the code's bookkeeping (cores, gpus, slots,   *)
 (* pool).  Known / conceivable deviations are boolean constants DevXxx.    *)
